@@ -29,7 +29,16 @@ Theorem C16_unproven_target_rejected : forall st vb rest sh r k a,
 Proof. exact unproven_target_rejected. Qed.
 Print Assumptions C16_unproven_target_rejected.
 
-(* one operation that is not an ICA packet: a vesting account appears only at an address that ALREADY has a proof *)
+(* CheckTx, ReCheckTx, simulation and delivery alike: a transaction the ante handler accepts carries vesting-creation
+   messages only at top level (depth 0) and only for targets with a stored proof, whatever else it carries *)
+Theorem C16_any_mode_needs_proof : forall m st vb rest sh d k a,
+  accepted default_disabled m (env_at st vb rest) sh = true ->
+  occurs d (MVesting k a) (msgs sh) -> d = 0%nat /\ has st a = true.
+Proof. exact any_mode_needs_proof. Qed.
+Print Assumptions C16_any_mode_needs_proof.
+
+(* one operation that is not an ICA packet carrying vesting messages: a vesting account appears only at an address that
+   ALREADY has a proof (a proof submission carried by an ICA packet is an operation of its own, OIcaSubmit, and is covered) *)
 Theorem C16_vesting_needs_proof_step : forall verifies st o a,
   is_ica o = false -> vested (fst (step verifies st o)) a = true -> vested st a = true \/ has st a = true.
 Proof. exact vesting_needs_proof_step. Qed.
@@ -139,7 +148,10 @@ Example C16_example_submit :
   snd (submit_tx ver1 rich 3 8%N 9%N 5%N true good 1000) = SRejDepth /\
   bal (fst (submit_tx ver1 rich 2 8%N 9%N 5%N true good 1000)) 9%N = 2 * COST /\
   bal (fst (submit_tx ver1 rich 2 8%N 9%N 5%N true good 1000)) 8%N = 3 * COST - 1000 /\
-  snd (submit_tx ver1 (fst (submit_tx ver1 rich 0 9%N 9%N 5%N true good 1000)) 0 8%N 8%N 5%N true good 1000) = SRejConflict.
+  snd (submit_tx ver1 (fst (submit_tx ver1 rich 0 9%N 9%N 5%N true good 1000)) 0 8%N 8%N 5%N true good 1000) = SRejConflict /\
+  snd (step ver1 rich (OIcaSubmit 9%N 5%N true good)) = RSubmit SOk /\
+  bal (fst (step ver1 rich (OIcaSubmit 9%N 5%N true good))) 9%N = 2 * COST /\
+  snd (step ver1 rich (OIcaSubmit 9%N 6%N true good)) = RSubmit SRejBasic.
 Proof. vm_compute. repeat split; reflexivity. Qed.
 
 Definition vest_sh (l : list msg) : shape :=
